@@ -59,7 +59,9 @@ def gen(rng, ctx):
         cd = G.add_cycles(rng, cd, rng.randint(3, 7))
     if tmpl in ("back", "latch", "ring") and (tmpl == "back" or rng.random() < 0.4):
         cd = G.add_cycles(rng, cd, rng.randint(1, 4 if big else 3))
-    return {"c": cd, "tmpl": tmpl}
+    if rng.random() < 0.3:
+        cd = G.shuffle_nodes(rng, cd)
+    return {"c": cd, "tmpl": tmpl, "repeat": rng.random() < 0.2}
 
 
 def check(case, ctx):
@@ -84,6 +86,11 @@ def check(case, ctx):
     if any(o in net.inputs() for o in net.outputs):
         ctx.count("output_is_input")
     ok, r = ctx.call(cg.tx.acyclic_unroll, c)
+    if case.get("repeat"):
+        from rv.props._util import repeat_call
+
+        if not repeat_call(ctx, "acyclic_unroll", "acyclic_unroll", cg.tx.acyclic_unroll, (c,), {}, (ok, r)):
+            return
     if not ok:
         ctx.violation("acyclic_unroll_raised", f"acyclic_unroll raised {r!r}\n{getattr(r, '_tb', '')}")
         return
